@@ -59,10 +59,18 @@ theorem header_roundtrip (h : Header) (hn : Clean h.names) (hk : Clean h.keys) :
 theorem rows_restored (size nterms : Nat) (h : 0 < nterms) : loadedRows size nterms nterms = size := by
   unfold loadedRows; exact Nat.mul_div_cancel _ h
 
-/-- `__reduce__` passes `(exponents, coefficients, names, dtype, allocation, retain_coefficients=False)`: rebuilding
-from them denotes the same polynomial (C03's constructor theorem) -/
-theorem reduce_roundtrip {S : Type} [CommSemiring S] [BEq S] [LawfulBEq S] (rn : Bool) (p : Poly S) (hw : WF p) :
+/-- `__reduce__` passes `(exponents, coefficients, names, dtype, allocation, retain_coefficients=True,
+retain_names=True)` (the repair of D57): rebuilding from them gives back exactly the stored polynomial - every row, also
+all-zero ones, every name, also unused ones - whatever options are in force when the pickle is loaded -/
+theorem reduce_roundtrip {S : Type} [CommSemiring S] [BEq S] [LawfulBEq S] (p : Poly S) :
+    clean true true p = p := C03.clean_retain p
+
+/-- before the repair the last argument was `retain_coefficients=False` and `retain_names` was left to the option in
+force at load time: the rebuilt polynomial denoted the same polynomial, but an all-zero term did not come back -/
+theorem reduce_roundtrip_old {S : Type} [CommSemiring S] [BEq S] [LawfulBEq S] (rn : Bool) (p : Poly S) (hw : WF p) :
     den (clean false rn p) = den p := C03.clean_den false rn p hw
+theorem reduce_old_dropped_terms :
+    (clean false true (⟨[0, 1], [([0, 1], (0 : Int)), ([1, 0], 1)]⟩ : Poly Int)).terms = [([1, 0], 1)] := by decide
 
 /-! ### the whole text file (`Np/Model/TextFile.lean`: header line, one line per array element with one number per
 stored term, numpy.loadtxt's comment cutting / splitting / squeeze, numpoly's `reshape(-1, nkeys)` and the split into
